@@ -413,14 +413,15 @@ def apiHandle (s : State) (rest : String) : State × String :=
       let k := a2.trimAscii.toString
       let o := s.heap.get r
       let ans : String :=
-        if k = "as_int" || k = "i64" then (match o with | .int n => "V " ++ toString n | _ => "ERR")
+        if k = "as_int" || k = "i64" || k = "i64_ref" then (match o with | .int n => "V " ++ toString n | _ => "ERR")
         else if k = "try_int" then (match o with | .int n => "V " ++ toString n | .float b => "V " ++ toString (f64ToI64Trunc b) | _ => "ERR")
         else if k = "as_float" then (match o with | .float b => "V " ++ hex16 b | _ => "ERR")
-        else if k = "try_float" || k = "f64" then (match tryFloat s r with | some b => "V " ++ hex16 b | none => "ERR")
+        else if k = "try_float" || k = "f64" || k = "f64_ref" then (match tryFloat s r with | some b => "V " ++ hex16 b | none => "ERR")
         else if k = "as_string" || k = "string" then (match o with | .str t => "V " ++ escapeLine t | _ => "ERR")
         else if k = "as_symbol" then (match o with | .sym n => "V " ++ escapeLine n | _ => "ERR")
         else if k = "bool" then "V " ++ boolStr (o != .nil)
         else if k = "opt_i64" then (match o with | .nil => "V None" | .int n => "V Some(" ++ toString n ++ ")" | _ => "ERR")
+        else if k = "opt_f64" then (match o with | .nil => "V None" | _ => (match tryFloat s r with | some b => "V " ++ hex16 b | none => "ERR"))
         else if k = "opt_string" then (match o with | .nil => "V None" | .str t => "V " ++ escapeLine t | _ => "ERR")
         else if k = "preds" then
           let isC := s.heap.isCons r
@@ -475,6 +476,32 @@ def handle (st : DState) (line : String) : DState × String :=
     let (r, c') := evalStringWith st.ev text st.ctx
     let how := if cmd = "PRINT" then "print" else if cmd = "PRINC" then "princ" else "canon"
     ({ st with ctx := c' }, fmtRes how r c')
+  else if cmd = "PUSHVAR" then
+    -- the model has no mutation: it only says whether the push is possible (the target is nil or a proper list);
+    -- everything the implementation shows afterwards, except the pushed-onto value itself, must be what it was
+    match (rest.splitOn " ").filter (· != "") with
+    | [var, path, _] =>
+      let (n, c) := st.ctx.intern var
+      match (c.symD n).get with
+      | none => ({ st with ctx := c }, "ERR")
+      | some v0 =>
+        let step (acc : Option Val) (ch : Char) : Option Val :=
+          match acc with
+          | none => none
+          | some v =>
+            if ch = 'a' then (match v with | .cons _ a _ => some a | .nil => some .nil | _ => none)
+            else if ch = 'd' then (match v with | .cons _ _ d => some d | .nil => some .nil | _ => none)
+            else some v
+        match path.toList.foldl step (some v0) with
+        | none => ({ st with ctx := c }, "ERR")
+        | some v =>
+          let rec proper : Nat → Val → Bool
+            | 0, _ => false
+            | _, .nil => true
+            | f + 1, .cons _ _ d => proper f d
+            | _, _ => false
+          ({ st with ctx := c }, if proper 1000000 v then "OK" else "ERR")
+    | _ => (st, "BADCMD")
   else if cmd = "CTXCALL" then
     -- CTXCALL <funcall|map|filter|reduce> <text>: the text evaluates to a list (FUNC ARG2 [ARG3]); the values are handed to
     -- TulispContext::funcall / map / filter / reduce (FUNC is evaluated once more there, the other values are not)
